@@ -137,7 +137,7 @@ def driver(ctx, race=False):
     return _drv[k]
 
 
-def run_real(ctx, behs, name, prom=False, procs=None, timeout=900):
+def run_real(ctx, behs, name, prom=False, procs=None, timeout=900, validator="loopback", listener="alternate"):
     """Executes the behaviours on the real packet handler (several driver processes, each a slice, sequential inside).
     Returns (trace_path, summaries aligned with behs)."""
     drv = driver(ctx)
@@ -154,6 +154,7 @@ def run_real(ctx, behs, name, prom=False, procs=None, timeout=900):
         tf = os.path.join(d, "trace-%d.ndjson" % i)
         sf = os.path.join(d, "sum-%d.json" % i)
         cmd = [drv, "replay", "-in", bf, "-out", tf, "-summary", sf, "-seed", str(ctx.seed * 1000 + i), "-from", str(lo), "-to", str(hi)]
+        cmd += ["-validator", validator, "-listener", listener]
         if prom:
             cmd.append("-prom")
         ps.append((subprocess.Popen(cmd, env=capped_env(), stdout=subprocess.PIPE, stderr=subprocess.PIPE, text=True), tf, sf, lo, hi))
@@ -288,7 +289,7 @@ def summary_violations(ctx, sums, behs, desc, want):
             return
         if "prom" in want and s.get("prom") and not s["prom"]["ok"]:
             ctx.violation({"module": "UdpNat", "kind": "prometheus-mismatch"},
-                          "gathered udp_nat_entries_added/removed or data_bytes{proto=udp} differ from the calls made (%s, behaviour %d)" % (desc, i + 1),
+                          "gathered udp_nat_entries_added/removed or data_bytes{proto=udp} differ from the calls made, or entries added != entries removed after shutdown (%s, behaviour %d)" % (desc, i + 1),
                           {"behaviour": beh, "summary": s})
             return
 
@@ -305,14 +306,40 @@ def has(b, kind, **kw):
 
 
 def replay_file(ctx, path, props, cfg=None):
-    """Re-judges the recorded trace of a violation (and, when the behaviour is present, re-executes it first)."""
+    """Re-judges the recorded trace of a violation; when the behaviour is present it is re-executed first (on both kinds of
+    listener conn) with the validator of its family."""
     d = json.load(open(path))
     rp = d["replay"]
-    cfg = cfg or rp.get("cfg", "UdpNatTraceReal.cfg")
-    if rp.get("behaviour") and cfg == "UdpNatTraceReal.cfg":
-        trace, sums = run_real(ctx, [rp["behaviour"]], "replay", procs=1)
-        validate(ctx, trace, cfg, props, "replay (re-executed) of " + os.path.basename(path), [rp["behaviour"]])
+    cfg = cfg or rp.get("cfg") or "UdpNatTraceReal.cfg"
+    if rp.get("behaviour") and cfg.startswith("UdpNatTraceReal"):
+        validator = "default" if "Def" in cfg else "loopback"
+        for listener in ("manager", "raw"):
+            trace, sums = run_real(ctx, [rp["behaviour"]], "replay-" + listener, procs=1, validator=validator, listener=listener)
+            validate(ctx, trace, cfg, props, "replay (re-executed, %s listener) of %s" % (listener, os.path.basename(path)), [rp["behaviour"]])
+            summary_violations(ctx, sums, [rp["behaviour"]], "replay", {"returned", "leak", "salt", "prom"})
         return
     tf = os.path.join(ctx.scratch, "replay.ndjson")
     vlib.write_ndjson(tf, rp["trace"])
     validate(ctx, tf, cfg, props, "replay (recorded trace) of " + os.path.basename(path))
+
+
+def real_families(ctx, name, n_main, n_def, props, seed_off=0, prom=False, want=()):
+    """The two real-socket families every UDP check runs:
+      main: validator = loopback + RequirePublicIP, IP-literal destinations (IPv4, IPv6, port 53, eth0, ULA forbidden)
+      def : the handler's DEFAULT validator (RequirePublicIP; SetTargetIPValidator not called) with destinations also named
+            by host name (localhost -> loopback: forbidden; fake-DNS names -> public: allowed / ULA: forbidden)
+    In both, every other behaviour drives Handle with the packet conn of service.NewListenerManager().ListenPacket (the
+    production path), the others with a plain net.ListenUDP socket.  Returns [(family, behs, trace, sums)]."""
+    out = []
+    for fam, gencfg, tracecfg, n, validator in (("main", "Gen_UdpNatReal.cfg", "UdpNatTraceReal.cfg", n_main, "loopback"),
+                                                ("def", "Gen_UdpNatRealDef.cfg", "UdpNatTraceRealDef.cfg", n_def, "default")):
+        if n <= 0:
+            continue
+        behs = gen(ctx, gencfg, n, seed=ctx.seed + seed_off + (0 if fam == "main" else 500009))
+        trace, sums = run_real(ctx, behs, "%s-%s" % (name, fam), prom=prom, validator=validator)
+        desc = "real sockets, %s validator%s" % ("loopback+public" if fam == "main" else "default (RequirePublicIP), host-name destinations",
+                                                 ", Prometheus collectors" if prom else "")
+        validate(ctx, trace, tracecfg, props, desc, behs)
+        summary_violations(ctx, sums, behs, desc, set(want))
+        out.append((fam, behs, trace, sums))
+    return out
